@@ -143,3 +143,35 @@ func (v *Vault) Intact() bool {
 	}
 	return true
 }
+
+// SizedVault is a key provider whose wrapped keys have a chosen size (the README does not limit the size of the
+// wrapped file key; only the header as a whole is limited to one segment): the wrap callback issues a random
+// token of N bytes and remembers a copy of the key, the unwrap callback looks the token up.
+type SizedVault struct {
+	N    int
+	mu   sync.Mutex
+	keys map[string][]byte
+}
+
+func NewSizedVault(n int) *SizedVault { return &SizedVault{N: n, keys: map[string][]byte{}} }
+
+func (v *SizedVault) Wrap(k []byte, alg, name string, nonce []byte) ([]byte, []byte, error) {
+	v.mu.Lock()
+	defer v.mu.Unlock()
+	tok := make([]byte, v.N)
+	if _, err := rand.Read(tok); err != nil {
+		return nil, nil, err
+	}
+	v.keys[string(tok)] = append([]byte{}, k...)
+	return tok, nil, nil
+}
+
+func (v *SizedVault) Unwrap(w []byte, alg, name string, nonce, tag []byte) ([]byte, error) {
+	v.mu.Lock()
+	defer v.mu.Unlock()
+	k, ok := v.keys[string(w)]
+	if !ok {
+		return nil, errors.New("verif sized vault: unknown wrapped key")
+	}
+	return append([]byte{}, k...), nil
+}
